@@ -12,6 +12,14 @@ CHECKS = {
    text="Seeded schedules of adders/doners, concurrent waiters with their own cancellable contexts, Num readers, reuse over rounds and Launch/DoTimes/Operation.Add/StartGroup families; every history is checked with porcupine against a counter model (a Wait that returned with a live context must linearize at counter 0; a negative Add must panic and change nothing) and at quiescence no waiter may be blocked at counter 0 or with a cancelled context.",
    note="Histories are capped at 60 operations; a waiter whose context was cancelled by the harness before it returned is treated as legitimately released (conservative).",
    tech=TECH + "; porcupine linearizability vs counter model + quiescence oracle"),
+ "C05": dict(cat="exploration", ref="§2 C05",
+   text="2-4 simulated clients issue Add/BlockingAdd/Remove/Wait/Len/Close and Distributor Send/Receive/Len on unlimited, hard-limit and soft-quota/burst-credit queues under seeded schedules with cancel and Close faults; every recorded history (unique values, invoke/return stamped in the simulator's total event order) is checked with porcupine against a sequential FIFO + admission model; operations returning a context error and operations still blocked at quiescence are no-ops.",
+   note="The quota/credit arithmetic of the model is transcribed from the documentation comments in pubsub/queue.go and tracker.go (float64); a change to code and comment together is invisible. Histories <= 60 operations; porcupine timeout 20 s (Unknown = inconclusive).",
+   tech=TECH + "; porcupine linearizability vs sequential FIFO/admission model"),
+ "C06": dict(cat="exploration", ref="§2 C06",
+   text="Same harness for Deque: Push/Pop/ForcePush/Wait/WaitPush at both ends, Len, Close, Distributor Send/Receive on unlimited, fixed-capacity and quota deques, cancel and Close faults; porcupine against a sequential double-ended queue with capacity (plain push on full fails without effect, Force push on full evicts exactly one from the opposite end, after Close pushes fail with ErrQueueClosed and pops report not-ok).",
+   note="Force pushes are generated only for capacity/unlimited deques (the statement defines 'full' there). Runs with two or more same-side waiters can livelock inside the library (cond.Signal before every cond.Wait) and are then budget-inconclusive for liveness; their safety history is skipped.",
+   tech=TECH + "; porcupine linearizability vs sequential deque model"),
 }
 NA = [
  ("C16", "dt.List/dt.Stack are single-goroutine data structures: the property quantifies over operation sequences only; there is no schedule, clock, fault or interleaving for a simulator to own (pure model-based testing target)."),
